@@ -2,6 +2,9 @@ SPECIFICATION Spec
 CONSTANTS Spellings <- Spellings4
           Probes <- ProbesAll
           Unkeyed <- NoFns
+          CliOpts <- NoCli
+          CliEnvs <- NoCli
+          EnvOverridesOption <- Off
           MaxDepth = 4
 INVARIANT ModeDetermines
 INVARIANT CacheSound
